@@ -21,6 +21,7 @@
 //            ihm h k / ihc h k  insert(hint, value_type&&) / insert(hint, value_type const&) named explicitly (ih alternates)
 //            eh h k             emplace_hint(hint, k) called directly
 //            epc p              flat_set::erase(const_iterator) (ep calls erase(iterator))
+//            iru n k..          flat_set::insert(sorted_unique, first, last) with a range sorted under the current comparator
 //            asic d n k.. / asuic d n k..   fsd_dyn only: s = flat_set(first, last, dyn_less{d}) /
 //                               s = flat_set(sorted_unique, first, last, dyn_less{d}): the constructors that TAKE the comparator
 // Per step the leg prints "<code> <result> [ n e1..en ]"; a fired TETL_PRECONDITION prints
@@ -412,7 +413,7 @@ void run_impl(Toks in, Out& out, std::size_t cap)
         if (code == "er" || code == "ef") { a = static_cast<int>(in.num()); b = static_cast<int>(in.num()); }
         if (code == "asic" || code == "asuic") { a = static_cast<int>(in.num()); }
         if (code == "ir" || code == "as" || code == "asu" || code == "rp" || code == "asi" || code == "asui" || code == "asic"
-            || code == "asuic") {
+            || code == "asuic" || code == "iru") {
             for (auto x : in.list()) { ks.push_back(static_cast<int>(x)); }
         }
         bool const odd = (in.i & 1U) != 0U; // alternates between equivalent routes through the interface
@@ -483,6 +484,12 @@ void run_impl(Toks in, Out& out, std::size_t cap)
                         s = S(etl::sorted_unique, Container(ks.data(), ks.data() + ks.size()));
                     } else if (code == "asui") {
                         s = S(etl::sorted_unique, ks.data(), ks.data() + ks.size());
+                    } else if (code == "iru") {
+                        if (odd) {
+                            s.insert(etl::sorted_unique, ks.data(), ks.data() + ks.size());
+                        } else {
+                            s.insert(etl::sorted_unique, fwd_it{ks.data()}, fwd_it{ks.data() + ks.size()});
+                        }
                     } else if (code == "asic" || code == "asuic") {
                         if constexpr (std::is_same_v<typename S::key_compare, dyn_less>) {
                             dyn_less const c{a != 0};
@@ -583,8 +590,13 @@ void run_ref(Toks in, Out& out, std::size_t cap)
             } else {
                 step.num(off(s, s.insert(std::next(s.begin(), static_cast<long>(h)), k)));
             }
-        } else if (code == "ir") {
+        } else if (code == "ir" || code == "iru") {
             auto ks = in.list();
+            if (code == "iru") {
+                // [flat.set.modifiers]: equivalent to insert(first, last) for a range sorted and unique under the comparator
+                std::vector<int> v(ks.begin(), ks.end());
+                if (K != Kind::flat_set || !sorted_unique_under(v, s.key_comp())) { na = true; break; }
+            }
             for (auto k : ks) {
                 Out dummy;
                 if (bounded_insert(static_cast<int>(k), dummy, false) == 1) {
